@@ -38,7 +38,9 @@ def run(db, chk) -> None:
     _tree_dependency(db, chk)
     from .c13 import check_publish_order
     check_publish_order(db, chk, "C16.R5-stack-columns-final")      # the columns the analysis selects operators by are the linked tree's
-    chk.floor("C16.R5-stack-columns-final", 2)
+    chk.floor("C16.R5-stack-columns-final", 3)
+    from .c13 import _backward as _bw13, CG as _CG13, CS as _CS13b
+    _bw13(db, chk, db.mod(_CS13b), db.mod(_CG13), rule="C16.R7-backward-attachment")       # which autograd operators hang beneath the annotation decides the depth the analysis selects roots by
     from .c13 import _kernel_info, CS as _CS13
     _kernel_info(db, chk, db.mod(_CS13), rule="C16.R6-kernel-totals")      # num_kernels / kernel_dur_sum, the columns roots are selected and durations summed by
 
